@@ -520,8 +520,18 @@ class DAG(nx.DiGraph):
                 f"Model must be an instance of DAG. Got type: {type(model)}"
             )
 
+        def v_structures(dag):
+            # Immoralities along with their collider node: X -> Z <- Y with X, Y non-adjacent.
+            return {
+                (frozenset(parents), node)
+                for node in dag.nodes()
+                for parents in itertools.combinations(dag.predecessors(node), 2)
+                if not dag.has_edge(parents[0], parents[1])
+                and not dag.has_edge(parents[1], parents[0])
+            }
+
         if (self.to_undirected().edges() == model.to_undirected().edges()) and (
-            self.get_immoralities() == model.get_immoralities()
+            v_structures(self) == v_structures(model)
         ):
             return True
         return False
